@@ -135,6 +135,7 @@ PROPS["C20"] = {
 
 # ---------------------------------------------------------------- C01
 PROPS["C01"] = {
+    "viol_filter": r"^(?!C06:|C18:)",
     "jobs": [
         Job("soyhtml", "H_binop", "0..13,0..8,0..8", workers=16),
         Job("soyhtml", "H_shortcircuit", "0..4,0..8", workers=8),
@@ -142,6 +143,7 @@ PROPS["C01"] = {
         Job("soyhtml", "H_ternary", "0..8,0..8", workers=8),
         Job("soyhtml", "H_print", "0..8", workers=8),
         Job("soyhtml", "H_dataref", "0..5,0..8", workers=8),
+        Job("soyhtml", "H_func", "0..13,0..3,0..8,0..8,0..2", workers=16, maxsteps=400000, hang_timeout=4.0, allow_unsupported=(r"math\.Pow\(symbolic\)",)),
         Job("parse", "H_minus", "false", workers=4),
         Job("parse", "H_minus", "true", workers=4),
         Job("parse", "H_prec", "0..13,0..13,0..2", workers=16),
@@ -159,4 +161,23 @@ PROPS["C01"] = {
     "assumptions": ["refBin/refTruthy/refEquals (harness) transcribe the Soy expression semantics; list/map identity uses one instance per kind"],
     "level_text": "Bounded symbolic model checking of the tree-walking evaluator, lexer and expression parser: operand kinds and program shapes are enumerated, every payload (int64, float64 bits, bytes, bools) is a solver variable; the reference semantics is an independent transcription of the language definition executed by the same engine.",
     "level_note": "Bounds in evidence. Trusted: go/ssa, gosym (native replay), z3 incl. FP theory, the reference semantics in the harness.",
+}
+
+# ---------------------------------------------------------------- C06
+PROPS["C06"] = {
+    "viol_filter": r"^(C06:|step bound|call depth|main goroutine blocked|uncaught panic|harness)",
+    "jobs": [
+        Job("soyhtml", "H_func", "0..13,0..3,0..8,0..8,0..2", workers=16, maxsteps=400000, hang_timeout=4.0, allow_unsupported=(r"math\.Pow\(symbolic\)",)),
+        Job("soyhtml", "H_binop", "0..13,0..8,0..8", workers=16),
+        Job("soyhtml", "H_evalExpr", "0..13,0..8", workers=8),
+        Job("soyhtml", "H_renderFail", "0..11,0..2,false", workers=8),
+        Job("soyhtml", "H_renderFail", "0..11,0..2,true", workers=8),
+        Job(".", "H_globals", "0..18,true", workers=8),
+        Job(".", "H_globals", "0..18,false", workers=4),
+    ],
+    "bounds": "every built-in function (and an unknown one) with 0..3 arguments of any of 9 value kinds (third argument int/string/undefined), ints in [-4,4]; every binary operator on every operand kind pair; soyhtml.EvalExpr on every operator with an undefined/erroring/well-typed left operand; 12 failing commands at call depth 0..2 in a bundle with and without a second file that redefines the same template names; soy.ParseGlobals on 19 valid/erroring/malformed definitions; step bound 400000 as unwinding assertion",
+    "outside": "user-registered functions and directives; data recursion deeper than 2; file-system loading",
+    "assumptions": ["rand.Int63n returns an arbitrary value in range"],
+    "level_text": "Bounded symbolic model checking: ill-typed use is the input space - argument kinds are enumerated, payloads symbolic; an escaping panic, a deadlock or a path exceeding the step bound is an engine verdict that is then reproduced natively.",
+    "level_note": "Bounds in evidence. Trusted: go/ssa, gosym, z3.",
 }
